@@ -24,13 +24,15 @@ var c15Sigs = map[string][]gen.Param{
 	"animate": {{Name: "t", T: tNum}},
 	"input":   {{Name: "id", T: tStr}, {Name: "val", T: tStr}},
 }
+var c15ParamNamedGlobals = []gen.Param{{Name: "x", T: tNum}, {Name: "t", T: tNum}, {Name: "k", T: tStr}, {Name: "val", T: tStr}}
+
 var c15Names = []string{"key", "down", "up", "move", "animate", "input"}
 
 func init() {
 	core.Register(&core.Check{
 		ID:    "C15",
 		Level: "exploration",
-		Rule: "handler programs: any subset of {key, down, up, move, animate, input} with parameter lists omitted, fully named or with _ in any position; bodies print the payload, update global counters/arrays/maps, use locals that shadow globals used by other handlers, call shared functions, return early, panic; event sequences of length <= 30 with payload classes (NaN, infinities, empty and non-ASCII strings, markup), delivered through Evaluator.HandleEvent after Eval as pkg/wasm does. Two oracles: (a) metamorphic - the same evaluator running the program with handlers rewritten as procedures and events as calls; (b) the reference interpreter. distinct = distinct (program text, event sequence)",
+		Rule: "handler programs: any subset of {key, down, up, move, animate, input} with parameter lists omitted, fully named or with _ in any position; bodies print the payload, update global counters/arrays/maps, use locals that shadow globals used by other handlers, read and update globals that carry the parameter names of other handlers (x, t, k, val), call shared functions, return early, panic; event sequences of length <= 30 with payload classes (NaN, infinities, empty and non-ASCII strings, markup), delivered through Evaluator.HandleEvent after Eval as pkg/wasm does. Two oracles: (a) metamorphic - the same evaluator running the program with handlers rewritten as procedures and events as calls; (b) the reference interpreter. distinct = distinct (program text, event sequence)",
 		Assumptions: []string{"events for which the program declares no handler are not delivered (pkg/wasm registers only declared handlers)"},
 		NumCases: func(tier string) int {
 			if tier == "thorough" {
@@ -148,7 +150,25 @@ func c15Handler(c *core.Ctx, name string, id int) gen.Handler {
 			}
 		}
 	}
+	// globals that carry the names other handlers use for their parameters: visible here unless this
+	// handler binds the name itself
 	tail := []gen.Expr{sl("exit " + name), vr("cnt", tNum), vr("lg", tArrS), vr("m", tMapN), vr("last", tNum)}
+	for _, g := range c15ParamNamedGlobals {
+		bound := false
+		for _, p := range named {
+			bound = bound || p.Name == g.Name
+		}
+		if bound {
+			continue
+		}
+		c.Cover("body", "global-named-like-a-parameter")
+		if g.T.K == gen.Num {
+			body = append(body, gen.Assign{Target: vr(g.Name, tNum), Val: gen.Binary{Op: "+", L: vr(g.Name, tNum), R: nl(1), T: tNum}})
+		} else if r.Intn(2) == 0 {
+			body = append(body, gen.Assign{Target: vr(g.Name, tStr), Val: gen.Binary{Op: "+", L: vr(g.Name, tStr), R: sl("."), T: tStr}})
+		}
+		tail = append(tail, vr(g.Name, g.T))
+	}
 	if !shadowed {
 		tail = append(tail, vr("g1", tNum))
 	}
@@ -167,11 +187,15 @@ func c15Run(c *core.Ctx, i int) {
 		gen.Decl{Name: "last", T: tNum, Init: nl(-1)},
 		gen.Decl{Name: "lg", T: tArrS, Typed: true},
 		gen.Decl{Name: "m", T: tMapN, Typed: true},
+		gen.Decl{Name: "x", T: tNum, Init: nl(1000)},
+		gen.Decl{Name: "t", T: tNum, Init: nl(2000)},
+		gen.Decl{Name: "k", T: tStr, Init: sl("global k")},
+		gen.Decl{Name: "val", T: tStr, Init: sl("global val")},
 		gen.FuncDef{Name: "note", Params: []gen.Param{{Name: "s", T: tStr}}, Ret: gen.TNone, Body: []gen.Stmt{
 			gen.Assign{Target: vr("lg", tArrS), Val: gen.Binary{Op: "+", L: vr("lg", tArrS), R: arrLit(tArrS, vr("s", tStr)), T: tArrS}}}},
 		gen.FuncDef{Name: "bump", Params: []gen.Param{{Name: "by", T: tNum}}, Ret: tNum, Body: []gen.Stmt{
 			gen.Assign{Target: vr("cnt", tNum), Val: gen.Binary{Op: "+", L: vr("cnt", tNum), R: vr("by", tNum), T: tNum}}, gen.Return{Val: vr("cnt", tNum)}}},
-		printCall(sl("top"), vr("zero", tNum), vr("cnt", tNum), vr("g1", tNum), vr("last", tNum), vr("lg", tArrS), vr("m", tMapN)),
+		printCall(sl("top"), vr("zero", tNum), vr("cnt", tNum), vr("g1", tNum), vr("last", tNum), vr("lg", tArrS), vr("m", tMapN), vr("x", tNum), vr("t", tNum), vr("k", tStr), vr("val", tStr)),
 	}
 	var handlers []gen.Handler
 	present := map[string]bool{}
